@@ -24,6 +24,10 @@ class ShapeError(Exception):
     pass
 
 
+class AttributeErrorSim(Exception):
+    """The interpreted code would raise AttributeError."""
+
+
 class DataDependent(Exception):
     """The code inspects the size of a caller axis (symbol) at run time."""
 
@@ -36,6 +40,31 @@ class AArr:
 
     def __repr__(self):
         return f"AArr{self.shape}"
+
+
+class AObj:
+    """An abstract geometry object: three data slots known by shape."""
+
+    def __init__(self, cls, proj=None, aux=None, dual=None, unit_ndims=1,
+                 aux_ndims=0, dual_ndims=0):
+        self.cls = cls              # ClassInfo (for method lookup via MRO)
+        self.proj_data = proj
+        self.aux_data = aux
+        self.dual_data = dual
+        self.unit_ndims = unit_ndims
+        self.aux_ndims = aux_ndims
+        self.dual_ndims = dual_ndims
+        self.set_calls = []
+
+    def clone(self):
+        o = AObj(self.cls, self.proj_data, self.aux_data, self.dual_data,
+                 self.unit_ndims, self.aux_ndims, self.dual_ndims)
+        return o
+
+    def __repr__(self):
+        return (f"AObj<{self.cls.name if self.cls else '?'} "
+                f"proj={self.proj_data} aux={self.aux_data} "
+                f"dual={self.dual_data}>")
 
 
 class AScal:
@@ -257,6 +286,8 @@ class Interp:
         self.stack = [""]
         self.depth = 0
         self.calls = 0
+        self.project = None
+        self.rel_prefix = {}
         # factory helpers of utils/core.py are modelled, not interpreted
         self.factory = {}
         for prefix, t in trees:
@@ -371,6 +402,18 @@ class Interp:
             return self.block(st.body if t else st.orelse, env)
         if isinstance(st, ast.Pass):
             return None
+        if isinstance(st, ast.Try):
+            try:
+                r = self.block(st.body, env)
+                if r is not None:
+                    return r
+            except AttributeErrorSim:
+                for h in st.handlers:
+                    if h.type is not None and "AttributeError" in \
+                            ast.unparse(h.type):
+                        return self.block(h.body, env)
+                raise
+            return self.block(st.orelse, env) if st.orelse else None
         if isinstance(st, ast.For):
             it = self.expr(st.iter, env)
             if not isinstance(it, (tuple, list)):
@@ -509,6 +552,16 @@ class Interp:
             if ast.unparse(e) == "np.newaxis":
                 return None
             v = self.expr(e.value, env)
+            if isinstance(v, AObj):
+                if e.attr in ("proj_data", "aux_data", "dual_data",
+                              "unit_ndims", "aux_ndims", "dual_ndims"):
+                    return getattr(v, e.attr)
+                m = self.find_method(v, e.attr)
+                if m is not None and any(
+                        ast.unparse(d) == "property"
+                        for d in m.decorator_list):
+                    return self.call_node(m, [v])
+                raise AttributeErrorSim(e.attr)
             if isinstance(v, AArr):
                 if e.attr == "T":
                     return AArr(tuple(reversed(v.shape)))
@@ -554,6 +607,33 @@ class Interp:
         if isinstance(sl, ast.Attribute) and ast.unparse(sl) == "np.newaxis":
             return None
         return self.expr(sl, env)
+
+    def find_method(self, obj, name):
+        if obj.cls is None or self.project is None:
+            return None
+        f = self.project.find_method(obj.cls, name)
+        if f is None:
+            return None
+        self.owner.setdefault(id(f.node), self._prefix_of(f.module.rel))
+        return f.node
+
+    def _prefix_of(self, rel):
+        return self.rel_prefix.get(rel, "")
+
+    def obj_method(self, obj, name, args, kw):
+        if name == "set":
+            names = ["proj_data", "aux_data", "dual_data"]
+            vals = dict(zip(names, args))
+            vals.update({k: v for k, v in kw.items() if k in names})
+            obj.set_calls.append(dict(vals))
+            for k in names:
+                if k in vals:
+                    setattr(obj, k, vals[k])
+            return None
+        m = self.find_method(obj, name)
+        if m is None:
+            raise AttributeErrorSim(name)
+        return self.call_node(m, [obj] + list(args), kw)
 
     def method(self, a, name, args, kw):
         if name == "squeeze":
@@ -611,12 +691,21 @@ class Interp:
         if isinstance(e.func, ast.Attribute) and not name.startswith(
                 ("np.", "utils.")):
             recv = self.expr(e.func.value, env)
+            if isinstance(recv, AObj):
+                margs = [self.expr(a, env) for a in e.args]
+                mkw = {k.arg: self.expr(k.value, env) for k in e.keywords}
+                return self.obj_method(recv, e.func.attr, margs, mkw)
             if isinstance(recv, AArr):
                 margs = [self.expr(a, env) for a in e.args]
                 mkw = {k.arg: self.expr(k.value, env) for k in e.keywords}
                 return self.method(recv, e.func.attr, margs, mkw)
         args = [self.expr(a, env) for a in e.args]
         kw = {k.arg: self.expr(k.value, env) for k in e.keywords}
+        if name in ("copy", "copy.copy") and args \
+                and isinstance(args[0], AObj):
+            return args[0].clone()
+        if name == "utils.invert" and args and isinstance(args[0], AArr):
+            return args[0]
         if name in ("np.identity", "utils.identity"):
             return AArr((args[0], args[0]))
         if name in ("np.zeros", "np.ones", "utils.zeros", "utils.ones"):
